@@ -32,7 +32,8 @@ theorem decodeAC_succ (dd : DDerived) (f rem : Nat) (bits : List Bool) :
       if rem = 0 then some ([], bits) else
       match decode dd bits with
       | none => none
-      | some (s, _, rest) =>
+      | some (_, true, _) => none
+      | some (s, false, rest) =>
         if s % 16 ≠ 0 then
           if s / 16 + 1 > rem then none
           else if rest.length < s % 16 then none
@@ -215,6 +216,22 @@ theorem decodeItem_itemBits_gen (isDC lossless : Bool) (t : Tbl) (c : CDerived) 
           rfl
         rw [htake, hdrop, bitsNat_natBits ex nex hex]
 
+theorem itemBits_decode (isDC lossless : Bool) (t : Tbl) (c : CDerived) (dd : DDerived)
+    (hc : mkCDerived isDC lossless t = some c) (hd : mkDDerived isDC lossless t = some dd)
+    (d : Int) (bs rest : List Bool) (h : itemBits c d = some bs) :
+    ∃ r, decode dd (bs ++ rest) = some ((category d).1, false, r) := by
+  unfold itemBits at h
+  obtain ⟨nb, ex, nex, hcat⟩ : ∃ nb ex nex, category d = (nb, ex, nex) := ⟨_, _, _, rfl⟩
+  rw [hcat] at h ⊢
+  simp only at h ⊢
+  cases hcode : encode c nb with
+  | none => rw [hcode] at h; cases h
+  | some code =>
+    rw [hcode] at h
+    injection h with h
+    subst h
+    exact ⟨_, by rw [List.append_assoc]; exact decode_encode isDC lossless t c dd hc hd nb code hcode _⟩
+
 /-- **a whole block round-trips**: DC difference and all 63 AC coefficients -/
 theorem decodeBlock_encodeBlock (tdc tac : Tbl) (cdc cac : CDerived) (ddc dac : DDerived)
     (h1 : mkCDerived true false tdc = some cdc) (h2 : mkDDerived true false tdc = some ddc)
@@ -232,8 +249,11 @@ theorem decodeBlock_encodeBlock (tdc tac : Tbl) (cdc cac : CDerived) (ddc dac : 
       simp [hi, ha] at he; subst he
       have hd' := decodeItem_itemBits_gen true false tdc cdc ddc h1 h2 diff db (ab ++ rest) hi
       have hacdec := decodeAC_encodeAC tac cac dac h3 h4 ac 0 64 ab rest hac ha (by omega)
+      obtain ⟨r0, hflag⟩ := itemBits_decode true false tdc cdc ddc h1 h2 diff db (ab ++ rest) hi
       unfold decodeBlock
-      rw [List.append_assoc, hd']
+      rw [List.append_assoc, hflag]
+      simp only
+      rw [hd']
       simp only [Nat.zero_add, hlen] at hacdec
       simp only [hacdec, List.replicate_zero, List.nil_append]
       by_cases h0 : diff = 0
